@@ -262,13 +262,40 @@ func ruleC06Raw(p *Prog, a *Anchors, r *Report) {
 				if !strings.HasPrefix(n, "strings.Trim") {
 					continue
 				}
-				g := Guarded(in, func(cnd ssa.Value, pol bool) bool {
+				flagCond := func(cnd ssa.Value, pol bool) bool {
 					if !pol {
 						return false
 					}
 					_, tn, _ := fieldLoadBase(cnd)
 					return tn != nil && (tn.Obj().Name() == "nodeHTML" || tn.Obj().Name() == "Options")
-				})
+				}
+				// … under the flag here, or — in a helper that is given the text — at every place the helper is called
+				// from among the functions the text was followed through
+				var under func(at ssa.Instruction, d int) bool
+				under = func(at ssa.Instruction, d int) bool {
+					if Guarded(at, flagCond) {
+						return true
+					}
+					fn := at.Parent()
+					if fn == nh || d > 3 {
+						return false
+					}
+					sites := 0
+					for _, cf := range t2TextFuncs(nh, textEnv) {
+						for _, cb := range cf.Blocks {
+							for _, ci := range cb.Instrs {
+								if cc, isC := ci.(*ssa.Call); isC && cc.Common().StaticCallee() == fn {
+									sites++
+									if !under(ci, d+1) {
+										return false
+									}
+								}
+							}
+						}
+					}
+					return sites > 0
+				}
+				g := under(in, 0)
 				if g {
 					r.OK(fkey+n, p.InstrPos(in), "trim applied only under its flag")
 				} else {
@@ -1093,8 +1120,50 @@ type verbDecider struct {
 func constPatternOf(p *Prog, v ssa.Value) (string, bool) {
 	if u, ok := v.(*ssa.UnOp); ok {
 		if g, ok := u.X.(*ssa.Global); ok {
-			if ic := globalInitCall(p, g); ic != nil && len(ic.Common().Args) == 1 {
-				return constString(ic.Common().Args[0])
+			if ic := globalInitCall(p, g); ic != nil && len(ic.Common().Args) == 1 && ic.Common().StaticCallee() != nil && !p.InPkg(ic.Common().StaticCallee()) {
+				if s, ok := constString(ic.Common().Args[0]); ok {
+					return s, true
+				}
+			}
+			// compiled by a helper of the package from constants and its (constant) arguments:
+			// `reEnd = verbatimTagPattern("endverbatim")` with `return regexp.MustCompile("^" + blanks + name + …)`
+			if ic := globalInitCall(p, g); ic != nil {
+				if h := ic.Common().StaticCallee(); h != nil && p.InPkg(h) && h.Blocks != nil {
+					bind := map[*ssa.Parameter]string{}
+					for i, pa := range h.Params {
+						if i < len(ic.Common().Args) {
+							if s, ok := constString(ic.Common().Args[i]); ok {
+								bind[pa] = s
+							}
+						}
+					}
+					var eval func(v ssa.Value, d int) (string, bool)
+					eval = func(v ssa.Value, d int) (string, bool) {
+						if d > 12 {
+							return "", false
+						}
+						if s, ok := constString(v); ok {
+							return s, true
+						}
+						switch x := v.(type) {
+						case *ssa.Parameter:
+							s, ok := bind[x]
+							return s, ok
+						case *ssa.BinOp:
+							if x.Op == token.ADD {
+								l, ok1 := eval(x.X, d+1)
+								r, ok2 := eval(x.Y, d+1)
+								return l + r, ok1 && ok2
+							}
+						}
+						return stringValueOf(p, v)
+					}
+					for _, ret := range returnsOf(h) {
+						if c, ok := res(ret, 0).(*ssa.Call); ok && c.Common().StaticCallee() != nil && p.extName(c.Common().StaticCallee()) == "regexp.MustCompile" {
+							return eval(c.Common().Args[0], 0)
+						}
+					}
+				}
 			}
 		}
 	}
@@ -1113,6 +1182,37 @@ func decidersOf(p *Prog, in ssa.Instruction, mode *bool) (ds []verbDecider, opaq
 			return false
 		}
 		switch x := c.(type) {
+		case *ssa.Extract:
+			// `w, ok := l.matchTag(re); ok`: a helper of the package that answers whether its pattern parameter matches
+			// at the position (FindStringIndex != nil) and how wide the match is
+			hc, isCall := x.Tuple.(*ssa.Call)
+			if !isCall || !pol || hc.Common().StaticCallee() == nil || !p.InPkg(hc.Common().StaticCallee()) {
+				return false
+			}
+			h := hc.Common().StaticCallee()
+			if b, isB := x.Type().Underlying().(*types.Basic); !isB || b.Kind() != types.Bool {
+				return false
+			}
+			if pi := matchHelperPatternParam(p, h, x.Index); pi >= 0 {
+				args := callArgs(hc.Common())
+				if pi < len(args) {
+					if pat, isC := t2PatternUnderMode(p, args[pi], mode, hc, in); isC {
+						if re, err := regexp.Compile(pat); err == nil {
+							seen[c] = true
+							ds = append(ds, verbDecider{"FindStringIndex " + strconv.Quote(pat) + " (in " + h.Name() + ")", func(s string) (int, bool) {
+								loc := re.FindStringIndex(s)
+								if loc == nil || loc[0] != 0 {
+									return 0, false
+								}
+								return loc[1], true
+							}})
+							return false
+						}
+					}
+				}
+			}
+			opaque = "the result of " + h.Name()
+			opaqueFns[opaque] = h
 		case *ssa.Call:
 			cal := x.Common().StaticCallee()
 			if cal == nil {
@@ -1139,6 +1239,7 @@ func decidersOf(p *Prog, in ssa.Instruction, mode *bool) (ds []verbDecider, opaq
 			default:
 				if p.InPkg(cal) && pol {
 					opaque = "call of " + cal.Name()
+					opaqueFns[opaque] = cal
 				}
 			}
 		case *ssa.BinOp:
@@ -1151,6 +1252,7 @@ func decidersOf(p *Prog, in ssa.Instruction, mode *bool) (ds []verbDecider, opaq
 				switch y := v.(type) {
 				case *ssa.Call:
 					if cal := y.Common().StaticCallee(); cal != nil && p.InPkg(cal) {
+						opaqueFns["a comparison of the result of "+cal.Name()] = cal
 						return cal.Name()
 					}
 				case *ssa.Extract:
@@ -1244,6 +1346,13 @@ func ruleC06VerbatimTags(p *Prog, a *Anchors, r *Report) {
 			// implement Django's named verbatim blocks): not compared
 			named := regexp.MustCompile(`^\{%` + blankClass + `*` + name + blankClass + `+[A-Za-z0-9_]+` + blankClass + `*%\}`)
 			if opaque != "" {
+				// a hand-written matcher is not evaluated — but one that strips white space with a Unicode primitive
+				// accepts more than the blanks of the tag language (TrimSpace takes LF, VT, FF, NBSP … as well): a
+				// look-alike of the end tag inside the body then ends the block
+				if prim := usesUnicodeSpace(p, opaqueFns[opaque], 0); prim != "" {
+					r.Bad(key, p.InstrPos(in), "the switch is decided by %s, which strips white space with %s: that takes line feed, VT, FF, NBSP and every other Unicode space as a blank, the tag language only %q — `{%%\\n\\tend"+"verbatim %%}` or `{%% endverbatim\\f%%}` inside the body of a verbatim block ends it, the bytes vanish and what follows is interpreted", opaque, prim, blanks)
+					continue
+				}
 				r.Assume(key, p.InstrPos(in), "the switch is (also) decided by %s, not by constant patterns: what it accepts is not evaluated here", opaque)
 				continue
 			}
@@ -1497,4 +1606,88 @@ func ruleC06RawSource(p *Prog, a *Anchors, r *Report) {
 		sort.Strings(fs)
 		r.OK("source-field", "-", "Template.%s is read by the lexer's construction only; nothing reachable from execution loads it", strings.Join(fs, "/"))
 	}
+}
+
+var opaqueFns = map[string]*ssa.Function{}
+
+// usesUnicodeSpace: g (or a function of the package it calls, two levels) strips or tests white space with a primitive
+// that knows the Unicode White_Space property: its name.
+func usesUnicodeSpace(p *Prog, g *ssa.Function, depth int) string {
+	if g == nil || g.Blocks == nil || depth > 2 {
+		return ""
+	}
+	for _, b := range g.Blocks {
+		for _, in := range b.Instrs {
+			c, ok := in.(*ssa.Call)
+			if !ok || c.Common().StaticCallee() == nil {
+				// a function value handed on: strings.TrimFunc(s, unicode.IsSpace)
+				continue
+			}
+			cal := c.Common().StaticCallee()
+			switch nm := p.extName(cal); nm {
+			case "strings.TrimSpace", "strings.Fields", "unicode.IsSpace", "bytes.TrimSpace", "bytes.Fields":
+				return nm
+			}
+			for _, a := range c.Common().Args {
+				if fn, isFn := a.(*ssa.Function); isFn && p.extName(fn) == "unicode.IsSpace" {
+					return "unicode.IsSpace"
+				}
+			}
+			if p.InPkg(cal) {
+				if s := usesUnicodeSpace(p, cal, depth+1); s != "" {
+					return s
+				}
+			}
+		}
+	}
+	return ""
+}
+
+// matchHelperPatternParam: h answers through its bool result #bi whether a *regexp.Regexp parameter matches
+// (FindStringIndex(...) != nil on the true returns, nil on the false ones): the index of that parameter among the call's
+// arguments (receiver included), else -1.
+func matchHelperPatternParam(p *Prog, h *ssa.Function, bi int) int {
+	if h == nil || h.Blocks == nil {
+		return -1
+	}
+	var find *ssa.Call
+	for _, b := range h.Blocks {
+		for _, in := range b.Instrs {
+			if c, ok := in.(*ssa.Call); ok && c.Common().StaticCallee() != nil && p.extName(c.Common().StaticCallee()) == "(*regexp.Regexp).FindStringIndex" {
+				if find != nil {
+					return -1
+				}
+				find = c
+			}
+		}
+	}
+	if find == nil {
+		return -1
+	}
+	pa, ok := find.Common().Args[0].(*ssa.Parameter)
+	if !ok {
+		return -1
+	}
+	for _, ret := range returnsOf(h) {
+		if bi >= len(ret.Results) {
+			return -1
+		}
+		k, isK := constBool(res(ret, bi))
+		if !isK {
+			return -1
+		}
+		// true only where the match was found, false only where it was not
+		nonNil := Guarded(ret, func(c ssa.Value, pol bool) bool {
+			x, eq, isNil := condIsNilTest(c)
+			return isNil && x == ssa.Value(find) && eq != pol
+		})
+		isNilEdge := Guarded(ret, func(c ssa.Value, pol bool) bool {
+			x, eq, isNil := condIsNilTest(c)
+			return isNil && x == ssa.Value(find) && eq == pol
+		})
+		if (k && !nonNil) || (!k && !isNilEdge) {
+			return -1
+		}
+	}
+	return indexOfParam(h, pa)
 }
